@@ -249,9 +249,14 @@ Definition reorder_towers (order : list N) (snap : list (N * tower_status)) : li
   flat_map (fun t => match aget snap t with Some st => [(t, st)] | None => [] end) (nodupN order) ++
   filter (fun kv => negb (memN (fst kv) order)) snap.
 
+(* the Vec cloned from `towers.iter()` before the loop: every tower once, with its current status *)
+Definition towers_snapshot (c : client) : list (N * tower_status) :=
+  flat_map (fun k => match aget (c_towers c) k with Some su => [(k, su_status su)] | None => [] end)
+           (nodupN (map fst (c_towers c))).
+
 Definition f_revocation (s : fstate) (l : N) (order : list N) (replies : list (N * areply)) : fstate * fout :=
   if poisoned s then (s, OPanic (SClient Site_poisoned)) else
-  let snapshot := reorder_towers order (map (fun kv => (fst kv, su_status (snd kv))) (c_towers (f_c s))) in
+  let snapshot := reorder_towers order (towers_snapshot (f_c s)) in
   match rev_loop s l snapshot replies with
   | (s1, Some site) => (s1, OPanic site)
   | (s1, None) => (set_due s1 (fold_left (fun d kv => due_add d (fst kv, l)) snapshot (f_due s1)), OOk)
